@@ -225,11 +225,19 @@ static void do_case(void) {
       case 'S': {
         sscanf(comma + 1, "%c,%d,%d", &ty, &a, &b);
         /* a client session sends requests, a server-side session responses / notifications */
+        /* some variety that must not matter to the accounting: method / response code, a
+         * Uri-Path option, a payload (all derived from the message id) */
+        static const coap_pdu_code_t req_code[3] = {COAP_REQUEST_CODE_GET, COAP_REQUEST_CODE_POST,
+                                                    COAP_REQUEST_CODE_PUT};
+        static const coap_pdu_code_t rsp_code[3] = {COAP_RESPONSE_CODE_CONTENT, COAP_RESPONSE_CODE_CHANGED,
+                                                    COAP_RESPONSE_CODE_NOT_FOUND};
         coap_pdu_t *p = coap_pdu_init(ty == 'c' ? COAP_MESSAGE_CON : COAP_MESSAGE_NON,
-                                      is_server[sid] ? COAP_RESPONSE_CODE_CONTENT
-                                      : COAP_REQUEST_CODE_GET, (coap_mid_t)a, 64);
+                                      is_server[sid] ? rsp_code[a % 3] : req_code[a % 3],
+                                      (coap_mid_t)a, 64);
         uint8_t tk[2] = {(uint8_t)(b >> 8), (uint8_t)b};
         coap_add_token(p, 2, tk);
+        if (!is_server[sid] && (a & 2)) coap_add_option(p, COAP_OPTION_URI_PATH, 1, (const uint8_t *)"r");
+        if (a & 1) coap_add_data(p, 3, (const uint8_t *)"abc");
         ret = coap_send(s, p) == COAP_INVALID_MID ? "X" : "A";
         break;
       }
